@@ -61,6 +61,7 @@ type vfResp struct {
 	parkRec    vfM
 	appParked  chan struct{}
 	appRelease chan struct{}
+	closing    chan struct{} // Close has cleared the buffers and is about to wait for the resend goroutines
 }
 
 func (r *vfResp) hook(name string, obj any) {
@@ -97,6 +98,11 @@ func (r *vfResp) hook(name string, obj any) {
 		r.mu.Unlock()
 		if j != nil {
 			j.parked <- "done"
+		}
+	case "nack.responder.closing":
+		select {
+		case r.closing <- struct{}{}:
+		default:
 		}
 	}
 }
@@ -185,7 +191,31 @@ func vfRunResp(t *testing.T, sc *vfRespScript, out *vfWriter) { //nolint:gocogni
 		t.Fatalf("VERIF-INFRA NewInterceptor(size %d): %v", sc.Size, err)
 	}
 	r := &vfResp{t: t, byObj: map[any]*vfJob{}, arrive: make(chan *vfJob), done: make(chan struct{}),
-		appParked: make(chan struct{}, 1), appRelease: make(chan struct{})}
+		appParked: make(chan struct{}, 1), appRelease: make(chan struct{}), closing: make(chan struct{}, 4)}
+	var closeDone chan error // non-nil while a Close call has not returned yet
+	closed := false
+	pollClose := func(wait bool) { // Close returns only when every resend goroutine has finished (checked by the spec)
+		if closeDone == nil {
+			return
+		}
+		var tm <-chan time.Time
+		if wait {
+			tm = time.After(10 * time.Second)
+		} else {
+			c := make(chan time.Time)
+			close(c)
+			tm = c
+		}
+		select {
+		case cerr := <-closeDone:
+			closeDone = nil
+			out.Emit(vfM{"a": "closeret", "ok": cerr == nil})
+		case <-tm:
+			if wait {
+				t.Fatalf("VERIF-FAIL Close did not return within 10s although every resend goroutine had finished")
+			}
+		}
+	}
 	var parkDone chan error // non-nil while an application write is parked
 	var parkPl []byte
 	var parkH *rtp.Header
@@ -270,12 +300,24 @@ func vfRunResp(t *testing.T, sc *vfRespScript, out *vfWriter) { //nolint:gocogni
 			delete(streams, st.S)
 			out.Emit(vfM{"a": "unbind", "s": st.S})
 		case "close":
-			releaseParked()
-			if err := ic.Close(); err != nil {
-				t.Fatalf("VERIF-FAIL Close returned %v", err)
+			if closeDone != nil {
+				continue
 			}
+			releaseParked()
+			// Close clears the buffers (the "close" event) and then waits for the resend goroutines, which this
+			// harness holds at their gates: the call returns later ("closeret"), after they have been stepped to the end
+			done := make(chan error, 1)
+			go func() { done <- ic.Close() }()
+			select {
+			case <-r.closing:
+			case <-time.After(10 * time.Second):
+				t.Fatalf("VERIF-FAIL Close did not reach its wait for the resend goroutines within 10s")
+			}
+			closeDone, closed = done, true
 			streams = map[uint32]*bound{}
 			out.Emit(vfM{"a": "close"})
+			time.Sleep(200 * time.Microsecond)
+			pollClose(false)
 		case "wrelease":
 			releaseParked()
 		case "wpark":
@@ -355,18 +397,28 @@ func vfRunResp(t *testing.T, sc *vfRespScript, out *vfWriter) { //nolint:gocogni
 			if n, _, rerr := rtcpReader.Read(buf, interceptor.Attributes{}); rerr != nil || n != len(raw) {
 				t.Fatalf("VERIF-FAIL RTCP read through the responder: n=%d err=%v", n, rerr)
 			}
+			started := true
+			wait := 10 * time.Second
+			if closed { // a closed responder starts no resend goroutine (nothing would wait for it)
+				wait = 30 * time.Millisecond
+			}
 			select {
 			case j := <-r.arrive:
 				j.id, j.nums = st.J, st.Nums
 				jobs[st.J] = j
 				order = append(order, st.J)
-			case <-time.After(10 * time.Second):
-				t.Fatalf("VERIF-FAIL no resend goroutine was started for a NACK within 10s")
+			case <-time.After(wait):
+				if !closed {
+					t.Fatalf("VERIF-FAIL no resend goroutine was started for a NACK within 10s")
+				}
+				started = false
 			}
-			out.Emit(vfM{"a": "nack", "s": st.S, "j": st.J, "nums": st.Nums})
+			out.Emit(vfM{"a": "nack", "s": st.S, "j": st.J, "nums": st.Nums, "started": started})
 		case "jobstart", "jobget", "jobemit":
 			if j := jobs[st.J]; j != nil {
 				jobStep(j, st.A)
+				time.Sleep(200 * time.Microsecond) // (gives a Close that wrongly stopped waiting the chance to show)
+				pollClose(false)
 			}
 		}
 	}
@@ -385,6 +437,7 @@ func vfRunResp(t *testing.T, sc *vfRespScript, out *vfWriter) { //nolint:gocogni
 			}
 		}
 	}
+	pollClose(true)
 	close(r.done)
 	r.mu.Lock()
 	stray := r.stray
